@@ -38,6 +38,31 @@ func probe() bool {
 			}
 		}
 		fmt.Println("preempt: 200 cases placed", placed, "violations", bad)
+	case "room":
+		fmt.Println("witness", runReclaimCase([]int64{2, 2, 0, 1, 2, 2, 1, 0, 1, kHier, 0}))
+		stats := map[int64][4]int{}
+		for i := 0; i < 600; i++ {
+			in := genReclaimRoomCase(rng.Fork())
+			o := runReclaimCase(in)
+			st := stats[in[9]]
+			st[0]++
+			if o[0] == 1 && o[1] == 0 {
+				st[1]++
+			}
+			if o[2] == 1 {
+				st[2]++
+				if o[3] == 0 {
+					st[3]++
+				}
+				for k := 0; k < int(o[4]); k++ {
+					if o[6+3*k] > o[7+3*k] || o[5+3*k] != o[6+3*k] {
+						fmt.Println("VIOL", in, o)
+					}
+				}
+			}
+			stats[in[9]] = st
+		}
+		fmt.Println("room: per kind [cases, preemptive&&!allocatable, placed, placed without eviction]", stats)
 	case "elastic":
 		for k := int64(1); k <= 3; k += 2 {
 			in := encEnqueue(k, []eqQueue{{ID: 1, Open: 1, Mask: 1, CPU: 4000}},
